@@ -132,7 +132,11 @@ impl Simd for Simd128u {
     }
 
     #[inline(always)]
-    fn gt(&self, _rhs: &Self) -> Self::Mask {
-        todo!()
+    fn gt(&self, rhs: &Self) -> Self::Mask {
+        // unsigned: self > rhs is the complement of self <= rhs
+        unsafe {
+            let le = self.le(rhs).0;
+            Mask128(_mm_xor_si128(le, _mm_set1_epi8(-1)))
+        }
     }
 }
